@@ -3,7 +3,9 @@
 //! dur := <ms> (Duration::from_millis) | <secs>s<nanos> (Duration::new(secs, nanos), nanos < 10^9) | MAX (Duration::MAX): the
 //! configured max_delay / max_lateness is a `Duration`; the code works with `d.as_millis() as u64` (model: `C13.durMillisU64`).
 //! ev := <ts> | <ts>@<now>: `now` is the reading (ms) of the generator's processing-time clock when the event is
-//! offered (hook `watermark::verif_clock`, cfg rre_verif; default 0; the stream is created at reading 0).
+//! offered (hook `watermark::verif_clock`, cfg rre_verif; default 0; the stream is created at reading 0). Readings are generated for
+//! EVERY watermark strategy: Periodic depends on them, the other three must ignore them (`clock_family`).
+//! The binary installs a `log` logger at Trace (`SinkLogger`): log-macro arguments in the library are evaluated on every run.
 //! Every ev may end in a DECORATION `#<src>.<typ>.<pay>.<ids>.<seq>.<tag>` (indices into the tables SOURCES / TYPES / payload /
 //! id style / sequence number / tags below; missing trailing fields = 0; no `#` = all 0 = the event every older case offers): the
 //! fields of a StreamEvent the watermark logic must IGNORE (`metadata.source`, `event_type`, `data`, the text of `id`,
@@ -430,8 +432,104 @@ fn gen(rng: &mut Rng, n: usize, tier: &str) -> Vec<String> {
         out.push(format!("B{} {} {}", d, l, join_nums(&ts)));
     }
     dur_family(rng, n, &mut out);
+    clock_family(rng, n, &mut out);
     deco_family(rng, n, tier, &mut out);
     out
+}
+
+/// PROCESSING-TIME clock readings on the strategies that must IGNORE the clock (BoundedOutOfOrder, MonotonicAscending, Custom):
+/// event time and processing time are different axes — however long the source was quiet on the wall clock (between construction and
+/// the first event, or between two events), the bounded watermark stays `max seen - delay`. Gaps: 0, 1 ms, around 2 s (1999 / 2000 /
+/// 2001), around the configured delay (delay-1 / delay / delay+1) and around max(delay, 2 s), 10 s, one hour, about 50 years (an epoch
+/// clock starting after a 0 reading), and BACKWARDS (duration_since fails).
+/// (a) fixed out-of-order sequences scaled to the delay x every position of ONE gap x every gap x every late strategy;
+/// (b) random sequences with a random gap in front of every event.
+fn clock_family(rng: &mut Rng, n: usize, out: &mut Vec<String>) {
+    // (strategy token, effective delay in ms)
+    let ws: [(&str, u64); 12] = [
+        ("M", 0), ("C", 0), ("B0", 0), ("B1", 1), ("B3", 3), ("B500", 500), ("B1999", 1999), ("B2000", 2000), ("B2001", 2001),
+        ("B5000", 5000), ("B1s999999999", 1999), ("B3600000", 3_600_000),
+    ];
+    let gaps_for = |d: u64| -> Vec<i64> {
+        let mut g: Vec<i64> = vec![0, 1, 1999, 2000, 2001, 10_000, 3_600_000, 1_700_000_000_000, -1, -2500];
+        for x in [d.saturating_sub(1), d, d + 1, d.max(2000) + 1, 2 * d + 1] {
+            if !g.contains(&(x as i64)) {
+                g.push(x as i64);
+            }
+        }
+        g
+    };
+    let advance = |now: u64, gap: i64| -> u64 { if gap < 0 { now.saturating_sub((-gap) as u64) } else { now + gap as u64 } };
+    for (w, d) in ws {
+        // a unit so that `unit` behind the maximum is within the bound and `2*unit+…` is beyond it
+        let u = (d / 2).max(1);
+        let seqs: [Vec<u64>; 4] = [
+            vec![2 * u, 4 * u, 6 * u, 6 * u - u.min(d), 5 * u],
+            vec![10 * u, 10 * u + 1, 9 * u, 12 * u],
+            vec![d + 5, d + 5 + d, d + 4, 3 * d + 9, 2 * d + 9],
+            vec![3, 1, 2],
+        ];
+        for ts in &seqs {
+            for pos in 0..ts.len() {
+                for gap in gaps_for(d) {
+                    // the clock starts at 3000 so that a backwards gap is representable; readings before `pos` advance by 1 ms
+                    let mut now = if gap < 0 { 3000u64 } else { 0 };
+                    let evs: Vec<Evt> = ts
+                        .iter()
+                        .enumerate()
+                        .map(|(i, t)| {
+                            now = if i == pos { advance(now, gap) } else { now + (i as u64 % 2) };
+                            (*t, now, [0u64; 6])
+                        })
+                        .collect();
+                    for l in ["D", "S", "A2", "R"] {
+                        if l != "D" && (pos + gap.unsigned_abs() as usize) % 3 != 0 {
+                            continue; // the other late strategies on a third of the points
+                        }
+                        out.push(format!("{} {} {}", w, l, join_evs(&evs)));
+                    }
+                }
+            }
+        }
+    }
+    for _ in 0..(n / 3).max(400) {
+        let (w, d) = *rng.pick(&ws);
+        let (w, d) = if rng.chance(1, 3) {
+            let d = *rng.pick(&[2u64, 7, 40, 900, 2500, 7000]);
+            (format!("B{}", d), d)
+        } else {
+            (w.to_string(), d)
+        };
+        let len = rng.range(1, 12) as usize;
+        let dom = (*rng.pick(&[4u64, 16, 40])).max(d.min(8000) * 3);
+        let gaps = gaps_for(d);
+        let mut now = if rng.chance(1, 2) { 0 } else { rng.below(5000) };
+        let mut hi = rng.below(dom);
+        let mut evs: Vec<Evt> = Vec::with_capacity(len);
+        for _ in 0..len {
+            now = match rng.below(4) {
+                0 => now + rng.below(3),
+                _ => advance(now, *rng.pick(&gaps)),
+            };
+            // mostly near the maximum so far (on time, within / at / just beyond the bound), sometimes anywhere
+            let t = match rng.below(5) {
+                0 => rng.below(dom),
+                1 => hi + rng.range(1, d.max(3)),
+                2 => hi.saturating_sub(d),
+                3 => hi.saturating_sub(rng.below(d + 2)),
+                _ => hi + rng.below(3),
+            };
+            hi = hi.max(t);
+            evs.push((t, now, [0u64; 6]));
+        }
+        let l = match rng.below(5) {
+            0 => "D".to_string(),
+            1 => "S".to_string(),
+            2 => "R".to_string(),
+            _ => format!("A{}", rng.below(d + 3)),
+        };
+        out.push(format!("{} {} {}", w, l, join_evs(&evs)));
+    }
 }
 
 /// DECORATED events: the same timestamp sequences, offered as events that differ in the fields the watermark logic must ignore.
@@ -636,6 +734,34 @@ fn shrink(case: &str) -> Vec<String> {
     out
 }
 
+/// A `log` logger that accepts every record up to Trace and formats it into a sink: the arguments of `log::debug!` / `trace!` /
+/// `info!` lines in the library are only EVALUATED when a logger with that level is installed (log's default max level is Off), so
+/// without one any side effect hidden in a log argument is invisible. A host application with `RUST_LOG=trace` must see the same
+/// watermark behaviour: the property does not depend on the logging configuration.
+struct SinkLogger;
+struct Sink;
+impl std::fmt::Write for Sink {
+    fn write_str(&mut self, _: &str) -> std::fmt::Result {
+        Ok(())
+    }
+}
+impl log::Log for SinkLogger {
+    fn enabled(&self, _: &log::Metadata) -> bool {
+        true
+    }
+    fn log(&self, record: &log::Record) {
+        // run every Display / Debug impl of the arguments too
+        let _ = std::fmt::Write::write_fmt(&mut Sink, *record.args());
+    }
+    fn flush(&self) {}
+}
+static SINK_LOGGER: SinkLogger = SinkLogger;
+
 fn main() {
+    // VERIF_NO_LOGGER=1 runs without a logger (what every run did before)
+    if std::env::var_os("VERIF_NO_LOGGER").is_none() {
+        log::set_logger(&SINK_LOGGER).expect("no other logger is installed");
+        log::set_max_level(log::LevelFilter::Trace);
+    }
     main_with(Prop { gen, exec, shrink });
 }
